@@ -68,9 +68,24 @@ def comp_text(c, ind):
     return s
 
 
+def _root_items(comps, ind):
+    """Component list with COMPONENTS OF groups printed once."""
+    items = []
+    last = None
+    for c in comps:
+        if c.cof is not None:
+            if c.cof != last:
+                items.append('COMPONENTS OF ' + c.cof[0])
+            last = c.cof
+            continue
+        last = None
+        items.append(comp_text(c, ind + 1))
+    return items
+
+
 def _members_text(t, ind):
     pad = '  ' * (ind + 1)
-    items = [comp_text(c, ind + 1) for c in (t.comps or [])]
+    items = _root_items(t.comps or [], ind)
     if t.ext is not None:
         items.append('...')
         for a in t.ext:
@@ -82,7 +97,7 @@ def _members_text(t, ind):
                 items.append(comp_text(a, ind + 1))
         if t.comps2:
             items.append('...')
-            items.extend(comp_text(c, ind + 1) for c in t.comps2)
+            items.extend(_root_items(t.comps2, ind))
         elif t.ext_end:
             items.append('...')
     if not items:
